@@ -9,7 +9,8 @@ after it against its LAST one; …). `Slots.routes` is the table of argument rou
 (`harness/routing.py`): for every call from one bycycle function to another, which canonical source reaches which callee parameter.
 
 `holds Slots.routes r` says: the source contains a call `caller → callee` in which every parameter listed in `r` receives the listed source
-(or an expression the extractor cannot canonicalise, `"?"`, which is reported and contradicts nothing). A pair `caller → callee` that no longer
+(or an expression the extractor cannot canonicalise, `"?"`, which is reported and contradicts nothing; a parameter that is not passed by name
+in a call that spreads a dictionary, `f(a, **d)`, may travel inside the dictionary and is not extractable either). A pair `caller → callee` that no longer
 occurs at all is likewise "not extractable" (the function may have been inlined): the statement is about calls that exist.
 -/
 namespace Bycycle.Routing
@@ -19,7 +20,7 @@ abbrev Route := String × String × List (String × String)
 def argOk (gen : List (String × String)) (pe : String × String) : Bool :=
   match gen.lookup pe.1 with
   | some g => g == pe.2 || g == "?"
-  | none => false
+  | none => (gen.lookup "**").isSome        -- the call spreads a dictionary (`**d`): the parameter may travel inside it - not extractable
 
 def covers (exp gen : Route) : Bool :=
   gen.1 == exp.1 && gen.2.1 == exp.2.1 && exp.2.2.all (argOk gen.2.2)
